@@ -474,6 +474,14 @@ class Facts:
                     got = self.trace(v, seen | {n})
                     if got:
                         return got
+                if v is None and not any(rcs.join_parts(self.scan, self.g, b[1]) is not None or (isinstance(b[1], ast.Call) and ((isinstance(b[1].func, ast.Attribute) and b[1].func.attr in POPPERS | {"get"}) or (isinstance(b[1].func, ast.Name) and b[1].func.id == "next"))) for b in bs):
+                    # assigned on several branches that meet again (`if d: name = f(p) else: name = g(p).name`): derived from
+                    # whatever any of the assignments is derived from
+                    got = set()
+                    for b in bs:
+                        got |= self.trace(b[1], seen | {n})
+                    if got:
+                        return got
             if n in self.params or len(bs) != 1:
                 return {n} if (n in self.params or bs) else set()
             b = bs[0]
@@ -714,7 +722,7 @@ class Scan:
             return self.F(g, e.value, R, env, depth)
         if isinstance(e, ast.Attribute) and env and norm(e) in env:
             return env[norm(e)]
-        if isinstance(e, ast.Attribute) and isinstance(e.value, ast.Name) and R and any(n.startswith(e.value.id + ".") for n in R) and fx.record_field(e) is not None and fx.record_field(e) not in R:
+        if isinstance(e, ast.Attribute) and isinstance(e.value, ast.Name) and R and any(n.startswith(e.value.id + ".") for n in R) and fx.record_field(e) is not None:
             return atom(f"REC.{e.attr}")  # another field of the record whose path is tracked: fixed by each yield (see totals)
         if isinstance(e, ast.Name):
             if e.id in env:
@@ -730,6 +738,10 @@ class Scan:
         if isinstance(e, ast.Compare) and len(e.ops) == 1:
             left, op, right = e.left, e.ops[0], e.comparators[0]
             if isinstance(op, (ast.Is, ast.IsNot)) and isinstance(right, ast.Constant) and right.value is None:
+                rf = self._tracked_record_field(g, left, R)
+                if rf is not None:
+                    a = atom(f"REC.{rf}.isnone")  # fixed by each yield: a field that is None for one kind of entry
+                    return a if isinstance(op, ast.Is) else f_not(a)
                 t = self.F(g, left, R, env, depth)  # object-or-None values: `x is not None` is the truthiness of x
                 if self._object_or_none(g, left):
                     return t if isinstance(op, ast.IsNot) else f_not(t)
@@ -799,6 +811,38 @@ class Scan:
                     return TRUE
             return self.opaque(g, e)
         return self.opaque(g, e)
+
+    def _tracked_record_field(self, g: FuncInfo, e: ast.expr, R: frozenset | None, depth: int = 0) -> str | None:
+        """Field name if `e` is `<record>.<field>` (or a local holding it) of the record whose path is tracked."""
+        fx = self.facts(g)
+        if isinstance(e, ast.NamedExpr):
+            return self._tracked_record_field(g, e.value, R, depth + 1)
+        if isinstance(e, ast.Name) and depth < 4 and e.id not in fx.params:
+            bs = fx.bind.get(e.id, [])
+            if len(bs) == 1 and bs[0][0] == "val":
+                return self._tracked_record_field(g, bs[0][1], R, depth + 1)
+            return None
+        if isinstance(e, ast.Attribute) and isinstance(e.value, ast.Name) and R and any(n.startswith(e.value.id + ".") for n in R) and fx.record_field(e) is not None:
+            return e.attr
+        return None
+
+    def _plain_path(self, w: FuncInfo, e: ast.expr, depth: int = 0) -> bool:
+        """Is the value plainly a path / string object made from a path (never None, always truthy)?"""
+        fw = self.facts(w)
+        if isinstance(e, ast.Name) and depth < 4 and e.id not in fw.params:
+            bs = fw.bind.get(e.id, [])
+            return len(bs) == 1 and bs[0][0] == "val" and self._plain_path(w, bs[0][1], depth + 1)
+        if rcs.join_parts(self, w, e) is not None:
+            return True
+        if isinstance(e, ast.Call):
+            f = e.func
+            if isinstance(f, ast.Attribute) and f.attr in ALIAS_METHODS | {"with_suffix", "with_name", "relative_to"} and fw.trace(f.value):
+                return True
+            if isinstance(f, ast.Name) and f.id in ALIAS_FUNCS - {"str"} and e.args:
+                return True
+            if lib_name(self.repo, w, e) in ALIAS_LIBS:
+                return True
+        return False
 
     def _suffix_of(self, g: FuncInfo, e: ast.expr, R: frozenset | None) -> bool:
         """`<alias>.suffix` or `os.path.splitext(<alias>)[1]` (also through a single-assignment local)."""
@@ -1129,10 +1173,18 @@ class Scan:
                     env_y = dict(env or {})
                     fixed = []
                     for f2, ye in fields.items():
-                        if f2 != fld:
+                        a2, n2 = atom(f"REC.{f2}"), atom(f"REC.{f2}.isnone")
+                        if isinstance(ye, ast.Constant):
+                            fixed.append(n2 if ye.value is None else f_not(n2))
+                            fixed.append(a2 if ye.value else f_not(a2))
+                            continue
+                        plain = self._plain_path(w, ye)
+                        if plain or (isinstance(ye, ast.Call) and self.T.ctor_class(w, ye) is not None) or isinstance(ye, (ast.Compare, ast.JoinedStr, ast.List, ast.Tuple, ast.Dict, ast.Set)) or (isinstance(ye, ast.UnaryOp) and isinstance(ye.op, ast.Not)):
+                            fixed.append(f_not(n2))
+                        if plain:
+                            fixed.append(a2)
+                        elif f2 != fld:
                             val = self.F(w, ye, Rw, {})
-                            env_y[f"{var}.{f2}"] = val
-                            a2 = atom(f"REC.{f2}")
                             fixed.append(f_or([f_and([a2, val]), f_and([f_not(a2), f_not(val)])]))
                     loc_y = self.guard(g, node, R, env_y)
                     for t in self.totals(w, y, Rw, depth + 1):
